@@ -5412,7 +5412,7 @@ void UniCompiler::emit_vm(UniOpVM op, const Vec& dst_, const Mem& src_, Alignmen
       case UniOpVM::kLoadCvt32_I32ToI64:
       case UniOpVM::kLoadCvt32_U32ToU64: {
         src.set_size(4);
-        cc->vmovd(dst, src);
+        cc->movd(dst, src);
         sse_int_widen(*this, dst, dst, WideningOp(op_info.cvt));
         return;
       }
